@@ -293,6 +293,48 @@ def _same_composition(chain_a, chain_b, k, rng):
     return True if ok else None
 
 
+def check_precheck(d, compl, snap_path, nround, rng, stats=None):
+    """Item 6 on the parameter-map file AS THE COMBINING STAGE WROTE IT (snapshot taken by the harness when check_results is
+    entered): for every function the combined, pair-cancelled chain must compose to the same map as the concatenation of the
+    steps recorded for it in the per-round files - with no exemption, because nothing has been split off yet.  This is C17's
+    cancellation clause observed where ESR applies it (the combining loop of duplicate_checker.main), not only through a direct
+    call of simplify_inv_subs; a corrupted chain would otherwise be hidden by check_results splitting the function off."""
+    stats = stats if stats is not None else {}
+    probs = []
+    try:
+        with open('%s/all_equations_%d.txt' % (d, compl)) as fh:
+            allf = fh.read().splitlines()
+        with open(snap_path) as fh:
+            subs = [r for r in csv.reader(fh, delimiter=';')]
+    except FileNotFoundError:
+        return probs
+    n = len(allf)
+    if len(subs) != n:
+        return [('precheck-linecount', n, len(subs))]
+    rchains = round_chains(d, compl, nround, n)
+    if rchains is None:
+        return probs
+    for i, f in enumerate(allf):
+        if not subs[i] and not rchains[i]:
+            continue
+        try:
+            chain = parse_chain(subs[i])
+            rc = parse_chain(rchains[i])
+        except Exception:
+            continue
+        if (rc is None) != (chain is None):
+            probs.append(('precheck-chain-differs:nan', i, f, subs[i], rchains[i]))
+            break
+        if rc is None:
+            continue
+        same = _same_composition(chain, rc, max(nparams(f), 1), rng)
+        stats['precheck_chains'] = stats.get('precheck_chains', 0) + 1
+        if same is False:
+            probs.append(('precheck-chain-differs', i, f, subs[i], rchains[i]))
+            break
+    return probs
+
+
 def check_library(d, compl, rng, npts=6, maxdraw=60, stats=None, family=True, nround=None):
     """Items 1-4 of LIB-SOUND.  Returns list of problem tuples."""
     stats = stats if stats is not None else {}
@@ -419,7 +461,7 @@ def classify(probs):
     if not hard:
         return None
     p = hard[0]
-    if p[0] in ('map-mismatch', 'nan-without-fewer-params', 'not-same-family', 'round-files-disagree', 'round-files-disagree:nan'):
+    if p[0] in ('map-mismatch', 'nan-without-fewer-params', 'not-same-family', 'round-files-disagree', 'round-files-disagree:nan', 'precheck-chain-differs', 'precheck-chain-differs:nan'):
         return 'lib-unsound:%s:%s' % (p[0], p[2])
     return 'lib-unsound:%s' % p[0]
 
